@@ -5,6 +5,7 @@ import (
 	"runtime"
 	"runtime/debug"
 	"sync"
+	"unsafe"
 )
 
 // SchedCfg selects the scheduling policy of a run.
@@ -26,6 +27,8 @@ type Sched struct {
 	cfg   SchedCfg
 	rng   rng
 	erng  rng
+	crng  rng // choices other than "which task runs": which ready select clause, which Cond waiter
+	lastChance bool
 	tasks []*Task
 	back  chan *Task
 	step  int
@@ -84,6 +87,7 @@ func NewSched(cfg SchedCfg) *Sched {
 	s := &Sched{cfg: cfg, back: make(chan *Task), last: -1}
 	s.rng = rng{s: Mix(cfg.Seed, 11)}
 	s.erng = rng{s: Mix(cfg.Seed, 12)}
+	s.crng = rng{s: Mix(cfg.Seed, 13)}
 	s.vars = map[int]*varState{}
 	s.confSeen = map[string]bool{}
 	s.AccCount = map[[2]int]int{}
@@ -266,12 +270,34 @@ func (s *Sched) Run() {
 		r := s.runnable()
 		if len(r) == 0 {
 			if n := s.liveCount(); n > 0 {
+				// nothing can run: simulated time jumps to the earliest pending timer ...
+				if s.jumpToNextTimer() {
+					continue
+				}
+				// ... or every blocked task looks once more (a channel may have been closed by code the simulator does
+				// not see); if none of them gets anywhere, nothing can ever change
+				if !s.lastChance {
+					s.lastChance = true
+					s.wakeAll()
+					continue
+				}
 				s.Dead = &Deadlock{Msg: fmt.Sprintf("%d task(s) blocked forever", n)}
 				s.Leaked = n
 			}
 			return
 		}
 		t := s.pick(r)
+		if t.spin > 2000 && len(r) > 1 {
+			// a task that does nothing but poll (atomic operations, TryLock, non-blocking selects) must not starve the
+			// task it is waiting for under a priority or replay policy: give the others a turn
+			t.spin = 0
+			for _, o := range r {
+				if o != t {
+					t = o
+					break
+				}
+			}
+		}
 		s.step++
 		if s.step > s.cfg.MaxSteps {
 			s.Dead = &Deadlock{Msg: "scheduler step budget exceeded"}
@@ -294,10 +320,21 @@ func (s *Sched) Run() {
 		t.resume <- struct{}{}
 		<-s.back
 		cur = nil
+		if !t.blocked {
+			s.lastChance = false
+		}
 	}
 }
 
 func (s *Sched) Fingerprint() uint64 { return s.fp }
+
+// choose decides among n alternatives that are not tasks (ready clauses of a select, waiters of a Cond).
+func (s *Sched) choose(n int) int {
+	if n <= 1 {
+		return 0
+	}
+	return s.crng.intn(n)
+}
 
 // SwitchedInside reports whether some context switch happened after a task's first access to
 // shared state and before that task finished.
@@ -443,6 +480,9 @@ func ResetSync() {
 	syncMu.Lock()
 	syncTab = map[any]*syncState{}
 	syncMu.Unlock()
+	conds = map[*sync.Cond][]*condWaiter{}
+	atomics = map[unsafe.Pointer]*[]uint64{}
+	sticky = map[unsafe.Pointer][]*Task{}
 }
 
 func (s *Sched) block(t *Task, cond func() bool) {
@@ -487,6 +527,7 @@ func MutexTryLock(m *sync.Mutex) bool {
 		return m.TryLock()
 	}
 	st := stateOf(m)
+	t.spin++
 	sched.yield(t)
 	if st.held {
 		return false
